@@ -4,7 +4,7 @@
     verbose_level 2 (and the [KValue] ones at 0), so "the text view is empty" does not mean "the tree
     is empty" entry by entry.  It does for every tree the ordered diff can produce:
       - every level the model reports other than [KIterMoved] has a text at verbose_level >= 1
-        ([vis], [text_of_vis]; [KRepetition] is never reported in ordered mode);
+        ([vis_level], [text_of_vis]; [KRepetition] is never reported in ordered mode);
       - [mutual] keeps a visible level visible ([mutual_vis]);
       - a [KIterMoved] level only comes from a 'replace' block of the difflib pass whose two start
         offsets differ; under [tiling] the offsets of a block differ only after an unbalanced block,
@@ -23,40 +23,40 @@ From DD Require Import Base.PyStr Base.Value Base.ValueFacts Path.PathModel
 (** * Visible levels *)
 
 (* the levels that have a text at every verbose_level >= 1 *)
-Definition vis (e : entry) : bool :=
+Definition vis_level (e : entry) : bool :=
   match ekind e with KIterMoved | KRepetition => false | _ => true end.
 
-Lemma text_of_vis v e : 1 <= v -> vis e = true -> text_of v e <> [].
+Lemma text_of_vis v e : 1 <= v -> vis_level e = true -> text_of v e <> [].
 Proof.
-  intros Hv. unfold vis, text_of. destruct v as [|v]; [lia|].
+  intros Hv. unfold vis_level, text_of. destruct v as [|v]; [lia|].
   destruct (ekind e); cbn; discriminate.
 Qed.
 
 (* at verbose_level 1 exactly the visible levels have a text *)
-Lemma text_of_1_nil e : text_of 1 e = [] <-> vis e = false.
-Proof. unfold vis, text_of. destruct (ekind e); cbn; split; intros H; try discriminate; reflexivity. Qed.
+Lemma text_of_1_nil e : text_of 1 e = [] <-> vis_level e = false.
+Proof. unfold vis_level, text_of. destruct (ekind e); cbn; split; intros H; try discriminate; reflexivity. Qed.
 
 (* "no level, or a visible one" *)
-Definition P (es : list entry) : Prop := es = [] \/ existsb vis es = true.
+Definition NilOrVis (es : list entry) : Prop := es = [] \/ existsb vis_level es = true.
 
-Lemma P_nil : P [].
+Lemma P_nil : NilOrVis [].
 Proof. left; reflexivity. Qed.
 
-Lemma P_allvis es : forallb vis es = true -> P es.
+Lemma P_allvis es : forallb vis_level es = true -> NilOrVis es.
 Proof.
   destruct es as [|e es]; [left; reflexivity|]. cbn. intros H. apply andb_true_iff in H as [H _].
   right. cbn. rewrite H. reflexivity.
 Qed.
 
-Lemma P_app a b : P a -> P b -> P (a ++ b).
+Lemma P_app a b : NilOrVis a -> NilOrVis b -> NilOrVis (a ++ b).
 Proof.
   intros [->|Ha] Hb; [exact Hb|]. right. rewrite existsb_app, Ha. reflexivity.
 Qed.
 
-Lemma P_flat_map {A} (f : A -> list entry) l : (forall x, P (f x)) -> P (flat_map f l).
+Lemma P_flat_map {A} (f : A -> list entry) l : (forall x, NilOrVis (f x)) -> NilOrVis (flat_map f l).
 Proof. intros H. induction l as [|x l IH]; cbn; [apply P_nil|]. apply P_app; [apply H|exact IH]. Qed.
 
-Lemma P_text v es : 1 <= v -> P es -> text_view v es = [] -> es = [].
+Lemma P_text v es : 1 <= v -> NilOrVis es -> text_view v es = [] -> es = [].
 Proof.
   intros Hv [->|H] T; [reflexivity|exfalso].
   apply existsb_exists in H as (e & He & Ve).
@@ -66,19 +66,19 @@ Qed.
 (* ------------------------------------------------------------------ *)
 (** * mutual_add_removes keeps a visible level visible *)
 
-Lemma mutual_vis es : P es -> P (mutual es).
+Lemma mutual_vis es : NilOrVis es -> NilOrVis (mutual es).
 Proof.
   intros [->|H]; [left; reflexivity|right].
   apply existsb_exists in H as (e & He & Ve). apply existsb_exists.
-  assert (Rem : forall r, In r es -> ekind r = KIterRem -> exists e', In e' (mutual es) /\ vis e' = true).
+  assert (Rem : forall r, In r es -> ekind r = KIterRem -> exists e', In e' (mutual es) /\ vis_level e' = true).
   { intros r Hr K. unfold mutual.
     destruct (last_with_path (ep1 r) (filter (is_kind KIterAdd) es)) as [a|] eqn:LA;
       [destruct (last_with_path (ep1 r) (filter (is_kind KIterRem) es)) as [r'|] eqn:LR|].
     - exists (mkEntry KValue (ep1 r) (ep2 r) (et1 r) (et2 a) (ediff r)). split; [|reflexivity].
       apply in_flat_map. exists r. split; [exact Hr|]. rewrite K, LA, LR. left; reflexivity.
-    - exists r. split; [|unfold vis; rewrite K; reflexivity].
+    - exists r. split; [|unfold vis_level; rewrite K; reflexivity].
       apply in_flat_map. exists r. split; [exact Hr|]. rewrite K, LA, LR. left; reflexivity.
-    - exists r. split; [|unfold vis; rewrite K; reflexivity].
+    - exists r. split; [|unfold vis_level; rewrite K; reflexivity].
       apply in_flat_map. exists r. split; [exact Hr|]. rewrite K, LA. left; reflexivity. }
   destruct (ekind e) eqn:K; try (apply (Rem e He K));
     try (exists e; split; [unfold mutual; apply in_flat_map; exists e; split; [exact He|rewrite K; left; reflexivity]|exact Ve]).
@@ -96,24 +96,24 @@ Qed.
 Section Kinds.
 Variable udiff : pystr -> pystr -> pystr.
 
-Lemma diff_atom_vis a b p1 p2 : forallb vis (diff_atom udiff noskip a b p1 p2) = true.
+Lemma diff_atom_vis a b p1 p2 : forallb vis_level (diff_atom udiff noskip a b p1 p2) = true.
 Proof.
   unfold diff_atom, report, diff_str. destruct (negb (ty_eqb (atom_ty a) (atom_ty b))); [reflexivity|].
   destruct a, b; try reflexivity; try (destruct (py_eq _ _); reflexivity);
     (destruct (pystr_eqb _ _); [reflexivity|]; destruct (_ && _); reflexivity).
 Qed.
 
-Lemma diff_leaf_vis x y p1 p2 : forallb vis (diff_leaf udiff noskip x y p1 p2) = true.
+Lemma diff_leaf_vis x y p1 p2 : forallb vis_level (diff_leaf udiff noskip x y p1 p2) = true.
 Proof. destruct x, y; try reflexivity. apply diff_atom_vis. Qed.
 
-Lemma removed_from_vis xs : forall i p1 p2, forallb vis (removed_from noskip xs i p1 p2) = true.
+Lemma removed_from_vis xs : forall i p1 p2, forallb vis_level (removed_from noskip xs i p1 p2) = true.
 Proof. induction xs as [|x xs IH]; intros i p1 p2; cbn; [reflexivity|apply IH]. Qed.
 
-Lemma added_from_vis ys : forall j p1 p2, forallb vis (added_from noskip ys j p1 p2) = true.
+Lemma added_from_vis ys : forall j p1 p2, forallb vis_level (added_from noskip ys j p1 p2) = true.
 Proof. induction ys as [|y ys IH]; intros j p1 p2; cbn; [reflexivity|apply IH]. Qed.
 
 (* no move is reported when both sides are indexed from the same offset *)
-Lemma pairs_leaf_vis xs : forall ys i p1 p2, forallb vis (pairs_leaf udiff noskip xs ys i i p1 p2) = true.
+Lemma pairs_leaf_vis xs : forall ys i p1 p2, forallb vis_level (pairs_leaf udiff noskip xs ys i i p1 p2) = true.
 Proof.
   induction xs as [|x xs IH]; intros ys i p1 p2.
   - cbn [pairs_leaf]. apply added_from_vis.
@@ -124,7 +124,7 @@ Qed.
 (* the difflib pass from equal offsets: an empty block keeps the offsets equal, a non-empty one
    reports visible levels *)
 Lemma by_opcodes_P xs ys p1 p2 os : forall i,
-  tiles os i i (length xs) (length ys) = true -> P (by_opcodes udiff noskip os xs ys p1 p2).
+  tiles os i i (length xs) (length ys) = true -> NilOrVis (by_opcodes udiff noskip os xs ys p1 p2).
 Proof.
   induction os as [|o os IH]; intros i T; [left; reflexivity|].
   pose proof (tiles_le _ _ _ _ _ T) as [Hi Hj]. cbn [tiles] in T.
@@ -136,7 +136,7 @@ Proof.
   rewrite by_opcodes_cons.
   destruct o as [tag i1 i2 j1 j2]. cbn [oi1 oi2 oj1 oj2 otag] in *. subst i1 j1.
   unfold tag_ok in *. cbn [otag oi1 oi2 oj1 oj2] in *.
-  assert (B : forallb vis (by_opcodes udiff noskip [mkOp tag i i2 i j2] xs ys p1 p2) = true /\
+  assert (B : forallb vis_level (by_opcodes udiff noskip [mkOp tag i i2 i j2] xs ys p1 p2) = true /\
               (by_opcodes udiff noskip [mkOp tag i i2 i j2] xs ys p1 p2 = [] -> i2 = j2)).
   { rewrite by_opcodes_single. cbn [otag oi1 oi2 oj1 oj2]. destruct tag.
     - split; [reflexivity|]. intros _.
@@ -172,7 +172,7 @@ Variable c : cfg.
 Hypothesis Htile : tiling ops.
 Notation diff := (diff hatom udiff ops noskip excl c).
 
-Lemma default_leaf_P xs ys p1 p2 : P (fst (default_leaf_list udiff ops noskip xs ys p1 p2)).
+Lemma default_leaf_P xs ys p1 p2 : NilOrVis (fst (default_leaf_list udiff ops noskip xs ys p1 p2)).
 Proof.
   unfold default_leaf_list.
   destruct (1 <? length (by_opcodes udiff noskip (ops p1 xs ys) xs ys p1 p2)).
@@ -182,9 +182,9 @@ Proof.
   - cbn [fst]. apply (by_opcodes_P udiff xs ys p1 p2 _ 0). apply Htile.
 Qed.
 
-Definition IHT (t1 : value) : Prop := forall t2 p1 p2, P (fst (diff t1 t2 p1 p2)).
+Definition IHT (t1 : value) : Prop := forall t2 p1 p2, NilOrVis (fst (diff t1 t2 p1 p2)).
 
-Lemma P_go_list xs : Forall IHT xs -> forall ys i p1 p2, P (fst (go_list noskip diff p1 p2 xs ys i)).
+Lemma P_go_list xs : Forall IHT xs -> forall ys i p1 p2, NilOrVis (fst (go_list noskip diff p1 p2 xs ys i)).
 Proof.
   induction 1 as [|x xs Hx _ IH]; intros ys i p1 p2.
   - cbn. apply P_allvis, added_from_vis.
@@ -194,7 +194,7 @@ Proof.
     unfold app2. cbn [fst]. apply P_app; [apply Hx|apply IH].
 Qed.
 
-Lemma P_seq_body xs ys p1 p2 : Forall IHT xs -> P (fst (seq_body hatom udiff ops noskip excl c xs ys p1 p2)).
+Lemma P_seq_body xs ys p1 p2 : Forall IHT xs -> NilOrVis (fst (seq_body hatom udiff ops noskip excl c xs ys p1 p2)).
 Proof.
   intros IH. unfold seq_body. destruct (negb (zip c) && forallb is_atom xs && forallb is_atom ys).
   - pose proof (default_leaf_P xs ys p1 p2) as D.
@@ -203,7 +203,7 @@ Proof.
 Qed.
 
 Lemma P_go_common kvs2 k2 p1 p2 l :
-  Forall (fun kv => IHT (snd kv)) l -> P (fst (go_common c diff kvs2 k2 p1 p2 l)).
+  Forall (fun kv => IHT (snd kv)) l -> NilOrVis (fst (go_common c diff kvs2 k2 p1 p2 l)).
 Proof.
   induction l as [|[k v1] l IH]; intros HI; [apply P_nil|].
   apply Forall_cons_iff in HI as [Hk HI']. specialize (IH HI').
@@ -223,7 +223,7 @@ Proof.
   unfold app2. cbn [fst]. apply P_app; [apply Hk|exact IH].
 Qed.
 
-Lemma P_diff_set xs ys p1 p2 : P (diff_set hatom noskip xs ys p1 p2).
+Lemma P_diff_set xs ys p1 p2 : NilOrVis (diff_set hatom noskip xs ys p1 p2).
 Proof.
   unfold diff_set. apply P_app; apply P_flat_map; intros x; apply P_allvis; destruct (existsb _ _); reflexivity.
 Qed.
@@ -248,7 +248,7 @@ Proof.
   - rewrite diff_vfrozen by reflexivity. cbn [fst]. apply P_diff_set.
 Qed.
 
-Theorem run_P t1 t2 : P (fst (run_diff hatom udiff ops noskip excl c t1 t2)).
+Theorem run_P t1 t2 : NilOrVis (fst (run_diff hatom udiff ops noskip excl c t1 t2)).
 Proof.
   unfold run_diff. pose proof (diff_P t1 t2 [] []) as H.
   destruct (diff t1 t2 [] []) as [es rec]. cbn [fst] in *. apply mutual_vis. exact H.
@@ -368,3 +368,48 @@ Lemma text_empty_tree_empty_refuted_skip :
   text_view 1 (fst (run_diff inj_hash (fun _ _ => []) sk_ops sk_skip noskip (mkCfg false 33 100 true) sk_t1 sk_t2)) = [] /\
   py_eqv sk_t1 sk_t2 = false.
 Proof. split; [apply guarded_ops_valid|]. repeat split; vm_compute; reflexivity. Qed.
+
+(* ------------------------------------------------------------------ *)
+(** * The same for the run with DeepDiff's run-wide DeepHash table ([DiffMemo.run_diff_m]), no alias guard *)
+From Coq Require Import Permutation.
+From DD Require Import Hash.HashModel Diff.DiffMemo Diff.DiffMemoProofs Diff.DiffMemoFinal.
+
+Lemma P_perm es es' : Permutation es es' -> NilOrVis es -> NilOrVis es'.
+Proof.
+  intros Pm [->|H]; [left; apply Permutation_nil; exact Pm|right].
+  apply existsb_exists in H as (e & He & Ve). apply existsb_exists. exists e. split; [|exact Ve].
+  eapply Permutation_in; eassumption.
+Qed.
+
+Theorem text_empty_tree_empty_with_table :
+  forall v H o udiff ops excl c t1 t2,
+    1 <= v -> tiling ops -> wf t1 = true -> wf t2 = true ->
+    text_view v (fst (fst (run_diff_m H o udiff ops noskip excl c t1 t2))) = [] ->
+    fst (fst (run_diff_m H o udiff ops noskip excl c t1 t2)) = [].
+Proof.
+  intros v H o udiff ops excl c t1 t2 Hv Ht W1 W2. rewrite run_entries.
+  destruct (run_diff_m_is_memo_free H o udiff ops excl c noskip t1 t2 W1 W2) as (_ & Pm & _).
+  apply (P_text v _ Hv). apply mutual_vis. eapply P_perm; [apply Permutation_sym; exact Pm|].
+  apply diff_P. exact Ht.
+Qed.
+
+Theorem text_empty_sound_with_table :
+  forall v H o udiff ops excl c t1 t2,
+    1 <= v ->
+    (forall s t, H s = H t -> s = t) -> plain o = true -> valid_ops ops ->
+    wf t1 = true -> wf t2 = true ->
+    inputs_ok (keep_key c) tag_safe_atom t1 = true -> inputs_ok (keep_key c) tag_safe_atom t2 = true ->
+    text_view v (fst (fst (run_diff_m H o udiff ops noskip excl c t1 t2))) = [] -> py_eqv t1 t2 = true.
+Proof.
+  intros v H o udiff ops excl c t1 t2 Hv HH Hp Hvalid W1 W2 K1 K2 T.
+  eapply (run_diff_m_empty_sound_any H o udiff ops excl c); try eassumption.
+  apply (text_empty_tree_empty_with_table v H o udiff ops excl c t1 t2 Hv (valid_ops_tiling ops Hvalid) W1 W2 T).
+Qed.
+
+Theorem text_copy_empty_with_table :
+  forall v H o udiff ops excl c t,
+    thr_num c <= thr_den c -> tiling ops -> wf t = true ->
+    text_view v (fst (fst (run_diff_m H o udiff ops noskip excl c t t))) = [].
+Proof.
+  intros v H o udiff ops excl c t Ht Htl W. rewrite (run_diff_m_copy_empty_any H o udiff ops excl c t Ht Htl W). reflexivity.
+Qed.
